@@ -110,6 +110,7 @@ class Monitor:
         self.longer_peer = False     # some node became leader while a peer held a longer log
         self.n_deliver = 0
         self.prev_conflicts = 0
+        self.matching_broken = False   # two leaders in one term / log matching violated earlier in this history
         self.stale_acks = 0        # success acks of an earlier term delivered to a leader (label / target only)
         self.n_crashed_drop = 0
 
@@ -194,7 +195,9 @@ class Monitor:
                         flags["overclaim"] = True
                         k = next((i for i in range(min(m, len(mine), len(ls.ents))) if mine[i] != ls.ents[i]),
                                  min(m, len(mine), len(ls.ents)))
-                        two = len(self.leaders.get(rec["term"], ())) > 1     # then honest acks can be wrong: consequence
+                        # once two leaders shared a term (or log matching broke), equal (index, term) no longer means
+                        # equal prefixes, so an honest ack can be wrong: then this is a consequence, not a cause
+                        two = self.matching_broken
                         (self.derived if two else self.add)("r3-ack-match-index-beyond-verified-prefix",
                                  f"{src} answered AppendEntries(term {rec['term']}, prev {rec['prev']}, "
                                  f"{rec['n']} entries) of leader {dst} with match_index={m}, but its log "
@@ -292,6 +295,7 @@ class Monitor:
                     a, b = ls[0], name
                     va = set(self.grants_delivered.get((a, new.term), ())) | {a}
                     vb = set(self.grants_delivered.get((b, new.term), ())) | {b}
+                    self.matching_broken = True
                     self.derived("two-leaders-in-one-term",
                                  f"term {new.term}: {a} (voters {sorted(va)}) and {b} (voters {sorted(vb)})")
         self.flush_applies()
@@ -305,6 +309,7 @@ class Monitor:
                 i = next((j for j in range(m, 0, -1) if new.ents[j - 1][0] == o.ents[j - 1][0]), 0)
                 if i and new.ents[:i] != o.ents[:i]:
                     k = next(j for j in range(i) if new.ents[j] != o.ents[j])
+                    self.matching_broken = True
                     self.derived("log-matching",
                              f"{name} and {other} both hold an entry (index {i}, term {new.ents[i - 1][0]}) but "
                              f"differ at index {k + 1}: {new.ents[k]} vs {o.ents[k]}")
